@@ -3,8 +3,8 @@ CONSTANTS
   OpFacts <- SoundFacts
   Sizes <- SizesBig
   ConstGas <- Const2
-  OtherGas <- Other2
-  Gives <- Gives3
+  OtherGas <- Other1
+  Gives <- Gives2
   GasLimit = 9000
   MaxOps = 5
   MaxDepth = 3
